@@ -52,7 +52,10 @@ var alpnDomain = []alpnSpec{
 	{[]string{"h3", "h2", "x"}, 1, false}, // like a decoded 3-entry list with cap 4
 	{[]string{"h3"}, 2, true},
 	{nil, 0, true},
+	{[]string{"h3", "h3", "h2"}, 1, true}, // a protocol id listed twice in a row (legal on the wire); only used by family D
 }
+
+const plainALPNDomain = 6
 
 type world struct {
 	Recs    []recSpec `json:"records"`
@@ -99,11 +102,14 @@ func build(w world) ech.ResolveResult {
 	r.HTTPS = make([]dns.HTTPS, 0, len(w.Recs)+1)
 	for _, s := range w.Recs {
 		h := dns.HTTPS{Priority: uint16(s.Prio), Target: s.Target, Port: uint16(s.Port)}
+		// hint lists are built like the decoder builds them (append): spare capacity behind the elements, with sentinels planted there
 		if s.Hints&1 != 0 {
-			h.IPv4Hint = []net.IP{append(net.IP{}, v4h...), append(net.IP{}, v4a...)}
+			h.IPv4Hint = append(make([]net.IP, 0, 4), append(net.IP{}, v4h...), append(net.IP{}, v4a...))
+			h.IPv4Hint[:4][2], h.IPv4Hint[:4][3] = net.IP{9, 9, 9, 9}, net.IP{9, 9, 9, 9}
 		}
 		if s.Hints&2 != 0 {
-			h.IPv6Hint = []net.IP{append(net.IP{}, v6h...)}
+			h.IPv6Hint = append(make([]net.IP, 0, 3), append(net.IP{}, v6h...))
+			h.IPv6Hint[:3][1], h.IPv6Hint[:3][2] = net.IP{9, 9, 9, 9}, net.IP{9, 9, 9, 9}
 		}
 		if s.ECH > 0 {
 			h.ECH = []byte{0, byte(s.ECH), 0xec}
@@ -304,6 +310,22 @@ func evalWorld(r *ev.Run, w world) {
 	if !reflect.DeepEqual(s1, got) || !reflect.DeepEqual(s2, got) {
 		r.Violation("impure:same-sequence-ranged-twice", fmt.Sprintf("ranging twice over one value returned by Targets gives %v then %v (a fresh call gives %v)", s1, s2, got), w)
 	}
+	// two enumerations of the same sequence value in progress at once (a nested loop, or a cursor left open): each sees all targets
+	if w.Stop < 0 && len(got) > 0 {
+		var outer, innerAtFirst []tgt
+		first := true
+		seq(func(t ech.Target) bool {
+			outer = append(outer, tgt{t.Address.String(), fmt.Sprintf("%x", t.ECH), alpnSet(t.ALPN)})
+			if first {
+				first = false
+				innerAtFirst, _ = collectSeq(seq, -1)
+			}
+			return true
+		})
+		if !reflect.DeepEqual(outer, got) || !reflect.DeepEqual(innerAtFirst, got) {
+			r.Violation("impure:nested-enumeration", fmt.Sprintf("an enumeration started inside another one over the same sequence value: outer %v, inner %v, a fresh call gives %v", outer, innerAtFirst, got), w)
+		}
+	}
 	// every yielded address is of the requested family, in the form the result holds it (16-byte values stay IPv6)
 	for _, g := range got {
 		ap, err := netip.ParseAddrPort(g.Addr)
@@ -369,7 +391,7 @@ func evalWorld(r *ev.Run, w world) {
 }
 
 func Run(r *ev.Run) {
-	r.Rule("E1 exhaustive: all ResolveResults with 1 HTTPS record over the full per-record domain (priority{0,1,2} x target{'',t1,t2} x port{0,8443,80} x hints{none,v4,v6,both} x ECH{nil,e1} x 6 ALPN shapes incl. spare capacity), and with 0, 2 and 3 records over a reduced per-record domain, x 5 Address lists x 3 Additional maps x Port{80,443,8443} x 6 networks x early termination after {never,0,1,2} yields, plus a family with 16-byte IPv4-mapped addresses next to their 4-byte twins and one with a mixed-case target name; targets are retained and compared after the enumeration has ended; each enumerated by two fresh calls and twice over one kept sequence value, compared with a reference function, with a byte-level snapshot (incl. spare capacity) before/after. distinct = distinct worlds yielding >=1 target")
+	r.Rule("E1 exhaustive: all ResolveResults with 1 HTTPS record over the full per-record domain (priority{0,1,2} x target{'',t1,t2} x port{0,8443,80} x hints{none,v4,v6,both} x ECH{nil,e1} x 6 ALPN shapes incl. spare capacity), and with 0, 2 and 3 records over a reduced per-record domain, x 5 Address lists x 3 Additional maps x Port{80,443,8443} x 6 networks x early termination after {never,0,1,2} yields, plus a family with 16-byte IPv4-mapped addresses next to their 4-byte twins and one with a mixed-case target name; targets are retained and compared after the enumeration has ended; hint lists carry spare capacity with sentinels; one enumeration nested inside another over the same sequence value; an ALPN list with a repeated id under no-default-alpn; each enumerated by two fresh calls and twice over one kept sequence value, compared with a reference function, with a byte-level snapshot (incl. spare capacity) before/after. distinct = distinct worlds yielding >=1 target")
 	r.Assume("reference function in checks/c15 written from the property text and RFC 9460 is correct",
 		"ALPN compared as a set; a record whose target has no known address may contribute nothing or its hints (the property leaves that open)",
 		"addresses are 4-byte IPv4 or 16-byte IPv6; a 16-byte IPv4-mapped value counts as IPv6 (it is what an AAAA record carried) and is distinct from its 4-byte twin")
@@ -383,7 +405,7 @@ func Run(r *ev.Run) {
 	// family 1: one record, full domain
 	targets := []string{"", "t1", "t2"}
 	recPorts := []int{0, 8443, 80}
-	p1 := enum.Product{3, 3, len(recPorts), 4, 2, len(alpnDomain), plainAddrDomain, plainAddlDomain, len(ports), len(networks), len(stops)}
+	p1 := enum.Product{3, 3, len(recPorts), 4, 2, plainALPNDomain, plainAddrDomain, plainAddlDomain, len(ports), len(networks), len(stops)}
 	worlds = append(worlds, func(i int) world {
 		d := p1.Decode(i)
 		return world{Recs: []recSpec{{d[0], targets[d[1]], recPorts[d[2]], d[3], d[4], d[5]}}, Addr: d[6], Addl: d[7], Port: ports[d[8]], Network: networks[d[9]], Stop: stops[d[10]]}
@@ -480,6 +502,19 @@ func Run(r *ev.Run) {
 		return w
 	})
 	sizes = append(sizes, pu.Size())
+
+	// family D: an ALPN list with the same protocol id twice in a row, with no-default-alpn (the record's own slice is what is
+	// yielded then), one or two records
+	pd := enum.Product{3, 2, plainAddrDomain, len(ports), 3, 2, 2}
+	worlds = append(worlds, func(i int) world {
+		d := pd.Decode(i)
+		w := world{Recs: []recSpec{{1, targets[d[0]], 0, d[1] * 3, 1, 6}}, Addr: d[2], Addl: 0, Port: ports[d[3]], Network: []string{"tcp", "tcp4", "udp6"}[d[4]], Stop: []int{-1, 0}[d[5]]}
+		if d[6] == 1 {
+			w.Recs = append(w.Recs, recSpec{2, "", 8443, 0, 2, 6})
+		}
+		return w
+	})
+	sizes = append(sizes, pd.Size())
 
 	for f := range worlds {
 		f := f
